@@ -25,12 +25,14 @@ class ServerHook:
     progress whose last activity is older than the cutoff."""
     def on_attr_write(self, eng, obj=None, field=None, val=None, node=None):
         if field == "will_close" and isinstance(obj, VObj) and obj.cls == CHM and eng.cur_func.endswith("maintenance"):
-            env = eng.final_locals
+            env = eng.entry_env
             req = eng.getattr(obj, "requests")
             la = eng.force(eng.getattr(obj, "last_activity"))
-            cutoff = eng.force(env["cutoff"])
+            # the cutoff is stated over the parameter and the configuration, not over a local of the current code
+            timeout = eng.force(eng.getattr(eng.force(eng.getattr(env["self"], "adj")), "channel_timeout"))
+            now = eng.force(env["now"])
             eng.oblige("%s/C18:reaps-only-idle-and-stale-connections" % eng.cur_func,
-                       z3.And(z3.Not(eng.truth(req)), la.t < cutoff.t),
+                       z3.And(z3.Not(eng.truth(req)), la.t < now.t - timeout.t),
                        clause="channel.will_close is set only when channel.requests is empty and channel.last_activity < now - channel_timeout", kind="assert")
 
 
@@ -45,6 +47,9 @@ def install(reg):
     reg.demonic["channels.values"] = EnvSpec(returns=ListOf(Obj(CHM, lazy=True)))
     reg.add(FuncContract(S + ".maintenance", params={"now": Int}, raises=[],
         loops={0: LoopSpec(invariants=[("true", "True")])}))
+    reg.funcs[S + ".maintenance"].loops[0].body_post = [
+        ("C18-idle-and-stale-connection-is-marked",
+         "implies(len(channel.requests) == 0 and channel.last_activity < now - self.adj.channel_timeout, channel.will_close)")]
     reg.add(FuncContract(S + ".readable", returns=Bool, raises=[],
         ensures=[("C18-admission-only-below-the-limit", "implies(result, self.accepting and len(self._map) < self.adj.connection_limit)"),
                  ("C18-accepting-resumes-below-the-limit", "implies(self.accepting and len(self._map) < self.adj.connection_limit, result)"),
